@@ -62,9 +62,8 @@ IdleWorker == [pc |-> "idle", ids |-> <<>>, seq |-> 0, tries |-> 0, i |-> 0]
 SidOf(e) == <<lines[e].src, lines[e].stream>>
 OffOf(e) == e * 10          \* offsets grow with read order
 
-Init ==
-  /\ lines \in [Ev -> [src : Srcs, stream : Strs, cls : Classes]]
-  /\ \A e \in Ev : e > 1 => lines[e].src >= lines[e - 1].src      \* symmetry: sources in blocks
+\* everything except the choice of the lines (used by trace validation, where the lines are those of the recorded run)
+InitRest ==
   /\ rd = 0 /\ inUse = 0
   /\ st = [s \in Sids |-> [q |-> <<>>, att |-> FALSE, det |-> FALSE, away |-> 0, com |-> 0, cur |-> 0]]
   /\ seqOf = [e \in Ev |-> 0]
@@ -76,6 +75,27 @@ Init ==
   /\ nfail = 0
   /\ obs = ObsNew([cap |-> Capacity, batch |-> BatchCount, dqbatch |-> BatchCount, retry |-> Retry, dq |-> HasDQ, gaps |-> FALSE, retention |-> 0, mult10 |-> 10])
   /\ sched = <<>>
+
+Init ==
+  /\ lines \in [Ev -> [src : Srcs, stream : Strs, cls : Classes]]
+  /\ \A e \in Ev : e > 1 => lines[e].src >= lines[e - 1].src      \* symmetry: sources in blocks
+  /\ InitRest
+InitWith(L) == lines = L /\ InitRest
+\* the same as an action (trace validation of several recorded runs in one file: a Reset line starts the next run)
+ResetWith(L) ==
+  /\ lines' = L
+  /\ rd' = 0 /\ inUse' = 0
+  /\ st' = [s \in Sids |-> [q |-> <<>>, att |-> FALSE, det |-> FALSE, away |-> 0, com |-> 0, cur |-> 0]]
+  /\ seqOf' = [e \in Ev |-> 0]
+  /\ charged' = <<>>
+  /\ pr' = [p \in Procs |-> IdleProc]
+  /\ bt' = [b \in Batchers |-> [cur |-> <<>>, hasCur |-> FALSE, free |-> NWorkers, full |-> <<>>,
+                                outSeq |-> 0, commitSeq |-> 0, lock |-> 0]]
+  /\ wk' = [b \in Batchers |-> [k \in Workers |-> IdleWorker]]
+  /\ nfail' = 0
+  /\ obs' = ObsNew([cap |-> Capacity, batch |-> BatchCount, dqbatch |-> BatchCount, retry |-> Retry, dq |-> HasDQ, gaps |-> FALSE,
+                    retention |-> 0, mult10 |-> 10])
+  /\ sched' = <<>>
 
 -----------------------------------------------------------------------------
 (* stream helpers (stream.go) *)
